@@ -40,6 +40,7 @@ const (
 type decision struct{ fault int }
 
 type hthread struct {
+	replyGate   bool // one-shot: after this thread's next successful GET has been EXECUTED, park before its reply is delivered
 	id          int
 	gate        chan decision
 	atGate      bool
@@ -169,6 +170,10 @@ func (g *gateRedis) Get(ctx context.Context, key string) *redis.StringCmd {
 	switch {
 	case cmd.Err() == nil:
 		g.ctl.report(th, 1, k, 1)
+		if th != nil && th.replyGate {
+			th.replyGate = false
+			g.ctl.arrive(ctx, "reply") // the command has taken effect in Redis; its reply is still "on the wire"
+		}
 	case errors.Is(cmd.Err(), redis.Nil):
 		g.ctl.report(th, 1, k, 0)
 	default:
